@@ -27,7 +27,11 @@ uncompressed messages of 2-4 subsets whose delayed replications in front of the 
 subset -- chosen so that the subsets record the SAME number of items (the operator sits at the same flat position,
 different elements precede it) -- with per-subset bit-maps and, for delayed bit-map replications, per-subset bit-map
 lengths.  Coverage of that class is measured from the implementation (hook on build_bitmapped_descriptors, counters
-`xsub-*` in the evidence) and never compared.
+`xsub-*` in the evidence) and never compared.  (d) `table-group-reuse` (run_xversion): one Decoder / compiling Decoder /
+Encoder / compiling Encoder for the whole stream over families of harness/xversion.py - the same bit-map construct over an
+element that two bundled table groups define differently (list derived from /repo/pybufrkit/tables, nothing by hand) -
+decoded and encoded A, B, A; marker values against their owner and against the tables the message names, Spec.links, the
+model under those tables, a fresh object (seeded/C07-4: marker descriptors cached on the coder object by element id).
 """
 import json
 import os
@@ -58,7 +62,12 @@ META = dict(
          'replications in front of the operator differ but record the same number of items, with per-subset bit-maps and '
          'bit-map lengths) and compared with the implementation\'s bitmap_links and with the model walk; every marker value '
          'of every subset must carry the element, width, scale and reference of the item its link names; the hierarchical '
-         'view is checked against the same links.',
+         'view is checked against the same links.  Re-use stream: ONE Decoder, one compiling Decoder, one Encoder and one '
+         'compiling Encoder handle, one after the other (A, B, A), the members of families derived mechanically from the bundled '
+         'tables (harness/xversion.py: the same bit-map construct - 222000 / 223255 / 224255 / 225255 / 232255, 237000 chains, '
+         'associated fields - over an element that two table groups define differently); every result: Spec.links on its items, '
+         'every marker value against its owner AND every plain element against the Table B entry of the group the message names, '
+         'the coder model under those tables, and a fresh object.',
     technique='Lean 4 theorems (induction over the descriptor list / case analysis of the walk / an invariant carried through '
               'the mutual recursion of the walk) + executable specification evaluated on the implementation\'s output + '
               'checked model/implementation correspondence',
